@@ -121,6 +121,7 @@ func c04monitor(cw *caseWriter) func(tag string, in, obs []uint64) {
 			a, isAE := aes[i-1]
 			var next *nsState
 			var resp []uint64
+			rebooted := len(o) > 0 && o[0] != 10
 			if len(o) > 0 && o[0] == 10 && isAE {
 				resp = o[1:6]
 				next = parseState(o[skipTrace(o, 6):])
@@ -178,7 +179,7 @@ func c04monitor(cw *caseWriter) func(tag string, in, obs []uint64) {
 						cw.monitor("C05", tag, "commit-index-above-last-index", "event %d", i-1)
 					}
 				}
-				if next.sc[sCommit] < cur.sc[sCommit] {
+				if !rebooted && next.sc[sCommit] < cur.sc[sCommit] {
 					cw.monitor("C05", tag, "commit-index-decreased", "event %d: %d -> %d", i-1, cur.sc[sCommit], next.sc[sCommit])
 				}
 			}
